@@ -6,11 +6,24 @@ Import ListNotations.
 From DDP Require Import Gen.Tokens Alias.OMap Alias.OMapProofs Alias.Trie Alias.TrieProofs Alias.TokKey.
 Open Scope N_scope.
 
+(* what the parser's key generator looks at (alias.go:50-53): the child key is an ALIAS_PARAMETER,
+   the call token is one of the token kinds that start an argument *)
+Definition tok_isph (t : tok) : bool := tt t =? tt_ALIAS_PARAMETER.
+Definition tok_isarg (t : tok) : bool :=
+  (tt t =? tt_INT) || (tt t =? tt_FLOAT) || (tt t =? tt_TRUE) || (tt t =? tt_FALSE) ||
+  (tt t =? tt_CHAR) || (tt t =? tt_STRING) || (tt t =? tt_IDENTIFIER) || (tt t =? tt_SYMBOL).
+
+Lemma tok_isph_congr a b : tok_eq a b = true -> tok_isph a = tok_isph b.
+Proof.
+  unfold tok_eq, tok_isph. destruct (tt a =? tt b) eqn:E; [|discriminate].
+  apply N.eqb_eq in E. rewrite E. reflexivity.
+Qed.
+
 Definition ttrie := trie tok N.
-Definition c20_run (ops : list (top tok N)) : list (tout N) := trun tok_eq tok_less empty ops.
+Definition c20_run (ops : list (top tok N)) : list (tout N) := trun tok_eq tok_less tok_isph tok_isarg empty ops.
 
 (* one operation at a time, for the driver (a fork is one operation: Fork inner) *)
-Definition c20_step (t : ttrie) (o : top tok N) : ttrie * list (tout N) := tstep tok_eq tok_less t o.
+Definition c20_step (t : ttrie) (o : top tok N) : ttrie * list (tout N) := tstep tok_eq tok_less tok_isph tok_isarg t o.
 Definition c20_empty : ttrie := empty.
 
 (* the lookup of the pinned tree (binary search only) loses the third of three print-alike keys *)
@@ -60,7 +73,32 @@ Proof. vm_compute. reflexivity. Qed.
 Example c20_fork_hypotheses :
   let ops1 := [Declare [idt [122]; ph 1 2] 2] in
   let ops2 := [Fork [Put [idt [122]; ph 1 1] 7; Fork [Put [idt [122]; ph 1 1] 8]]; Lookup [idt [122]]; Fork [Put [idt [122]; ph 1 1] 9]] in
-  lookup tok_eq tok_less (state_after tok N tok_eq tok_less ops1) [idt [122]; ph 1 1] = None /\
+  lookup tok_eq tok_less (state_after tok N tok_eq tok_less tok_isph tok_isarg ops1) [idt [122]; ph 1 1] = None /\
   forallb (fun o => negb (is_put o)) ops2 = true /\
-  lookup tok_eq tok_less (state_after tok N tok_eq tok_less (ops1 ++ Declare [idt [122]; ph 1 1] 1 :: ops2)) [idt [122]; ph 1 1] = Some 1.
+  lookup tok_eq tok_less (state_after tok N tok_eq tok_less tok_isph tok_isarg (ops1 ++ Declare [idt [122]; ph 1 1] 1 :: ops2)) [idt [122]; ph 1 1] = Some 1.
 Proof. vm_compute. auto. Qed.
+
+(* non-vacuity of the Search theorems: "f b z" and "f <a> q" share the prefix f and have, at the
+   same position, a literal identifier and a placeholder. The call "f b q" - its argument is the
+   identifier b, equal to the literal word of the sibling - finds the placeholder alias, in both
+   declaration orders; "f b z" finds the literal one; a call both patterns accept ("f b" / "f <a>")
+   returns both, the literal sibling first (IDENTIFIER sorts before ALIAS_PARAMETER); a
+   non-argument token (a comma) does not instantiate the placeholder. *)
+Definition comma : tok := {| tt := tt_COMMA; lit := []; ainfo := None |}.
+Example c20_search_siblings :
+  c20_run [Declare [idt [102]; idt [98]; idt [122]] 1; Declare [idt [102]; ph 1 1; idt [113]] 2;
+           Search [idt [102]; idt [98]; idt [113]]; Search [idt [102]; idt [98]; idt [122]; idt [97]];
+           Declare [idt [102]; idt [98]] 3; Declare [idt [102]; ph 1 1] 4; Search [idt [102]; idt [98]; idt [113]];
+           Search [idt [102]; comma; idt [113]]]
+  = [Declared; Declared; Matches (Some [2]); Matches (Some [1]); Declared; Declared; Matches (Some [3; 4; 2]); Matches (Some [])]
+  /\ c20_run [Declare [idt [102]; ph 1 1; idt [113]] 2; Declare [idt [102]; idt [98]; idt [122]] 1;
+              Search [idt [102]; idt [98]; idt [113]]]
+  = [Declared; Declared; Matches (Some [2])].
+Proof. vm_compute. auto. Qed.
+
+Example c20_search_hypotheses :
+  let ks := [idt [102]; ph 1 1; idt [113]] in
+  let ops1 := [Declare [idt [102]; idt [98]; idt [122]] 1] in
+  lookup tok_eq tok_less (state_after tok N tok_eq tok_less tok_isph tok_isarg ops1) ks = None /\ ks <> [] /\
+  instantiates tok_eq tok_isph tok_isarg ks [idt [102]; idt [98]; idt [113]] = true.
+Proof. vm_compute. repeat split; congruence. Qed.
